@@ -17,7 +17,9 @@ VARIABLES tid, l, cur, mem, errs, fid, done
 Case == Cases[tid]
 
 OpOf(e) == [name |-> e.a, relc |-> e.args.relc, bare |-> (e.args.bare = "T"), pos |-> e.args.pos,
-            preset |-> e.args.preset,
+            preset |-> e.args.preset, keep |-> e.args.keep,
+            flags |-> {e.args.flags[i] : i \in 1..Len(e.args.flags)}, rows |-> e.args.rows,
+            fop |-> e.args.fop, fval |-> e.args.fval,
             rules |-> IF e.args.preset = "negra" THEN Rules.negra
                       ELSE IF e.args.preset = "ptb" THEN Rules.ptb ELSE <<>>]
 
@@ -36,6 +38,9 @@ RefApply(o, T) ==
     [] o.name = "uncollapse_unary_chains" -> Uncollapse(T)
     [] o.name = "punctuation_delete" -> PunctDelete(T)
     [] o.name = "delete_terminal" -> DeleteToks(T, {o.pos})
+    [] o.name = "ptb_delete_traces" -> PtbDeleteTraces(T, o, Case.wc)
+    [] o.name = "insert_terminals" -> InsertTerminals(T, o.rows)
+    [] o.name = "substitute_terminals" -> SubstituteTerminals(T, o.rows)
     [] OTHER -> T
 
 RetRootOps == Structural \cup {"punctuation_delete", "ptb_delete_traces", "insert_terminals",
@@ -47,14 +52,18 @@ MustRaise(o, A) ==
 StepErrs(e, A, m2) ==
   LET o == OpOf(e) IN
   IF e.res = "exc" THEN
-     IF MustRaise(o, A) THEN {} ELSE {"C04.raised." \o e.a}
+     IF MustRaise(o, A) THEN {}
+     ELSE {(IF o.name \in Structural THEN "C04" ELSE "C11") \o ".raised." \o e.a}
+  ELSE IF o.name = "filter_by_length" THEN
+     F("C11.filter", (e.res = "none") <=> FilterDrops(A, o)) \cup
+     (IF e.res = "ok" THEN F("C11.filter_unchanged", e.post.nodes = cur.nodes /\ WFretroot(e.post)) ELSE {})
   ELSE IF MustRaise(o, A) THEN {"C14.bin.rejects_headless"}
   ELSE LET wf == WFClauses(e.post) IN
-    {"C04." \o c : c \in wf} \cup
+    {(IF o.name \in Structural THEN "C04." ELSE "C11.") \o c : c \in wf} \cup
     (IF o.name \in RetRootOps /\ ~WFretroot(e.post) /\ wf = {}
      THEN {IF o.name = "uncollapse_unary_chains" THEN "C14.uncol.ret_is_root"
            ELSE IF o.name \in Structural THEN "C04.ret_is_root" ELSE "C11.ret_is_root"} ELSE {}) \cup
-    (IF wf = {} THEN Clauses(o, A, Abs(e.post), m2) ELSE {})
+    (IF wf = {} THEN Clauses(o, A, Abs(e.post), m2, Case.wc) ELSE {})
 
 Fidelity(e, A) ==
   IF e.res = "ok" /\ WF(e.post) /\ StripIds(Abs(e.post)) # StripIds(RefApply(OpOf(e), A))
